@@ -111,6 +111,7 @@ class RunView:
                 self.oc[int(f["i"])] = cur
             elif ln.startswith("OPS") and cur is not None:
                 cur["ops"] += ln.split()[1:]
+        self.ps = [unc.parse_chunk(x) for x in dumps.get("PS", [])]
         self.pb = [unc.parse_chunk(x) for x in dumps.get("PB", [])]
         self.pa = [unc.parse_chunk(x) for x in dumps.get("PA", [])]
         self.p1 = [unc.parse_chunk(x) for x in dumps.get("P1", [])]
@@ -301,6 +302,8 @@ class Stats:
         self.dir_cases = 0
         self.dir_bad = 0
         self.mono_pairs = 0
+        self.orig_chunks = 0
+        self.orig_bad = 0
         self.mono_bad = 0
         self.wrap_bad = 0
         self.reach = {}
@@ -475,6 +478,59 @@ def replay(j, v, a, b, r):
             "cmd": "UNC_VERIF_OUT=trace <hook build>/uncrustify -q -c <base_config + overrides> -f <input>" + (" -l " + j.lang if j.lang else "")}
 
 
+_LINES = {}
+
+
+def true_gap(j, cb, vals):
+    """number of blank columns directly in front of chunk cb in its input line (tab-expanded), None if not measurable"""
+    key = j.inp
+    if key not in _LINES:
+        try:
+            raw = open(j.inp, "rb").read()
+        except OSError:
+            raw = b"\xff"
+        _LINES.clear()
+        _LINES[key] = raw.decode("ascii").split("\n") if all(b < 0x80 for b in raw) and b"\r" not in raw else None
+    lines = _LINES[key]
+    ol = cb["ol"] - 1
+    if lines is None or not (0 <= ol < len(lines)) or "\\" in lines[ol]:
+        return None
+    ts = int(vals.get("input_tab_size", 8) or 8)
+    e, col = [], 1
+    for ch in lines[ol]:
+        if ch == "\t":
+            n = ts - (col - 1) % ts
+            e.append(" " * n)
+            col += n
+        else:
+            e.append(ch)
+            col += 1
+    x = "".join(e)
+    k = cb["oc"] - 1
+    if k > len(x) or k <= 0:
+        return None
+    n = 0
+    while k - 1 - n >= 0 and x[k - 1 - n] == " ":
+        n += 1
+    return n
+
+
+def input_neighbours(v, ca, cb):
+    """in the chunk list after tokenize_cleanup() (dump PS) the non-empty chunk in front of cb on its input line is ca"""
+    idx = getattr(v, "_ps_by_line", None)
+    if idx is None:
+        idx = {}
+        for c in v.ps:
+            if c["txt"]:
+                idx.setdefault(c["ol"], []).append(c)
+        v._ps_by_line = idx
+    best = None
+    for c in idx.get(cb["ol"], []):
+        if c["oc"] < cb["oc"] and (best is None or c["oc"] > best["oc"]):
+            best = c
+    return best is not None and best["oc"] == ca["oc"] and best["txt"] == ca["txt"] and best["nl"] == 0
+
+
 def oracle_pair(ctx, st, j, v, r, a, b, in_qt):
     """the property's own observable: whitespace really written between the two tokens vs the configured value of the
     option the space record names.  Independent of the Lean model and of the table."""
@@ -539,6 +595,15 @@ def oracle_pair(ctx, st, j, v, r, a, b, in_qt):
             elif (len(ws) > 0) != (in_gap > 0):
                 return "Ignore but whitespace %s although the input had %s (input gap %d)" % (
                     "written" if ws else "not written", "none" if in_gap == 0 else "some", in_gap)
+            else:
+                # the exact width, measured on the input text itself (not on orig_col_end): the blank columns directly in front of the
+                # second token in the tab-expanded input line
+                tg = true_gap(j, pa_b, vals)
+                mods_on = any(k.startswith("mod_") and str(x).lower() not in ("false", "ignore", "0", "") for k, x in vals.items())
+                if tg is not None and not mods_on and "\t" not in ws and pa_a["oe"] - pa_a["oc"] == len(pa_a["txt"]) and input_neighbours(v, pa_a, pa_b):
+                    ctx.count("oracle:ignore:width-compared")
+                    if len(ws) != tg and not (in_gap == 0 and tg > 0):
+                        return "Ignore but %d space(s) written where the input has %d blank column(s) in front of the token" % (len(ws), tg)
         return None
 
     if conf == "remove" and forced:
@@ -556,6 +621,10 @@ def oracle_pair(ctx, st, j, v, r, a, b, in_qt):
                 break
     if bad:
         key = {"kind": "gap", "rule": rule, "value": conf, "first": txt(pa_a), "second": txt(pa_b)}
+        if bad.startswith("Ignore but") and "blank column(s) in front of the token" in bad:
+            # the first token was merged from several input tokens: its end column is computed as column + length of the merged text
+            ft = txt(pa_a)
+            key = {"kind": "ignore-width-after-merged-token", "first": '""<suffix>' if ft.startswith('""') else ft}
         if ctx.violation("pair '%s' '%s' (input line %d col %d) attributed to %s = %s: %s  [%s]"
                          % (txt(pa_a), txt(pa_b), pa_a["ol"], pa_a["oc"], rule, conf, bad, j.name),
                          dict(replay(j, v, a, b, r), measured_ws=repr(ws), column_gap=gapcols), key=key, found_input=True):
